@@ -229,6 +229,75 @@ def subst_locals(fn: ast.FunctionDef, expr: ast.expr, depth: int = 4) -> ast.exp
     return Sub(depth, at).visit(copy.deepcopy(expr))
 
 
+def single_defs(fn: ast.AST) -> Dict[str, ast.expr]:
+    """name -> defining expression for every local bound exactly once in `fn` (tuple assignments element-wise); loop and
+    comprehension targets, augmented and deleted names are excluded."""
+    cnt: Dict[str, int] = {}
+    rhs: Dict[str, ast.expr] = {}
+    banned = set()
+    for n in walk_no_nested(fn):
+        if isinstance(n, (ast.For, ast.AsyncFor, ast.comprehension)):
+            for m in ast.walk(n.target):
+                if isinstance(m, ast.Name):
+                    banned.add(m.id)
+        if isinstance(n, ast.AugAssign) and isinstance(n.target, ast.Name):
+            banned.add(n.target.id)
+        if isinstance(n, ast.Name) and isinstance(n.ctx, (ast.Store, ast.Del)):
+            cnt[n.id] = cnt.get(n.id, 0) + 1
+        if isinstance(n, ast.Assign) and len(n.targets) == 1:
+            t, v = n.targets[0], n.value
+            if isinstance(t, ast.Name):
+                rhs[t.id] = v
+            elif isinstance(t, (ast.Tuple, ast.List)) and isinstance(v, (ast.Tuple, ast.List)) and len(t.elts) == len(v.elts):
+                for a, b in zip(t.elts, v.elts):
+                    if isinstance(a, ast.Name):
+                        rhs[a.id] = b
+    if hasattr(fn, "args"):
+        for a in fn.args.args:
+            banned.add(a.arg)
+    return {k: v for k, v in rhs.items() if cnt.get(k) == 1 and k not in banned}
+
+
+def resolve_names(e: ast.expr, defs: Dict[str, ast.expr], depth: int = 6) -> ast.expr:
+    import copy
+
+    def go(x, d):
+        class Sub(ast.NodeTransformer):
+            def visit_Name(self, node):
+                if isinstance(node.ctx, ast.Load) and node.id in defs and d > 0:
+                    return go(defs[node.id], d - 1)
+                return node
+        return Sub().visit(copy.deepcopy(x))
+    return go(e, depth)
+
+
+def fuse_comprehensions(e: ast.expr) -> ast.expr:
+    """`f(x) for x in (g(y) for y in Y)`  ->  `f(g(y)) for y in Y`   (single generators, no conditions, plain name target)."""
+    import copy
+
+    class Fuse(ast.NodeTransformer):
+        def _fuse(self, node):
+            node = self.generic_visit(node)
+            if len(node.generators) == 1 and not node.generators[0].ifs and isinstance(node.generators[0].target, ast.Name):
+                inner = node.generators[0].iter
+                if isinstance(inner, (ast.GeneratorExp, ast.ListComp)) and len(inner.generators) == 1 and not inner.generators[0].ifs:
+                    tv = node.generators[0].target.id
+
+                    class Sub(ast.NodeTransformer):
+                        def visit_Name(self, n2):
+                            if n2.id == tv and isinstance(n2.ctx, ast.Load):
+                                return copy.deepcopy(inner.elt)
+                            return n2
+                    new = copy.copy(node)
+                    new.elt = Sub().visit(copy.deepcopy(node.elt))
+                    new.generators = [copy.deepcopy(inner.generators[0])]
+                    return ast.fix_missing_locations(new)
+            return node
+
+        visit_GeneratorExp = visit_ListComp = _fuse
+    return Fuse().visit(copy.deepcopy(e))
+
+
 def once_defs(stmts) -> Dict[str, ast.expr]:
     """name -> rhs for names assigned exactly once at the top level of a statement list (a loop body, say)."""
     cnt: Dict[str, int] = {}
